@@ -152,3 +152,25 @@ Proof.
   rewrite EU. rewrite uses_from_chars. rewrite rev_involutive, app_nil_r. rewrite E.
   eexists; eexists; reflexivity.
 Qed.
+
+(* the same for a bytes literal (Literal[b"..."] values): the b prefix belongs to the token *)
+Theorem text_use_line_bytes b a d rest prev acc ts u :
+  wf_bytes d -> before_ok b = true -> after_ok a = true ->
+  text_use b a = Some u ->
+  tok_line (LDef prev) acc (b ++ py_repr_bytes d ++ a ++ rest) = Some ts ->
+  exists post, ts = rev acc ++ map TkChar b ++ TkBytes d :: post /\
+    uses_from (rev (map TkChar b) ++ acc) (TkBytes d :: post)
+    = (u, VB d) :: uses_from (TkBytes d :: rev (map TkChar b) ++ acc) post.
+Proof.
+  intros Hw Hb Ha Hu H.
+  rewrite (line_literal_bytes b d (a ++ rest) prev acc Hw Hb (after_ok_ctx a rest Ha)) in H.
+  destruct a as [|c a']; [discriminate|].
+  unfold text_use in Hu. destruct (plain_next c) eqn:Hc; [|discriminate].
+  cbn [app] in H. rewrite (tok_default_step c (a' ++ rest) false _ Hc) in H.
+  apply tok_line_acc in H. destruct H as (post' & ->).
+  exists (TkChar c :: post'). split.
+  - cbn [rev]. rewrite rev_app_distr, rev_involutive. rewrite <- !app_assoc. reflexivity.
+  - cbn [uses_from next_code].
+    destruct (plain_next_facts c Hc) as (_ & _ & _ & _ & H32). rewrite H32.
+    rewrite map_code_chars. rewrite (luse_pad_of _ _ _ _ Hu). reflexivity.
+Qed.
